@@ -170,6 +170,13 @@ theorem joinTracking_ok (c : Cfg) (s : State) (i : Nat) : EffsOK (joinTracking c
     · cases hd; simp only [List.mem_singleton] at hmem; subst hmem; trivial
   · cases hd
 
+theorem splitCont_ok (sc : StageCfg) (down : List Nat) : EffsOK (splitCont sc down) := by
+  unfold splitCont
+  split
+  · effs_tac
+  · rw [effsOK_append]
+    exact ⟨effsOK_map_push _ _ (fun _ => trivial), effsOK_map_push _ _ (fun _ => trivial)⟩
+
 theorem hCompleteStage_ok (c : Cfg) (s : State) (id i : Nat) : EffsOK (hCompleteStage c s id i).flatten := by
   unfold hCompleteStage
   simp only []
@@ -187,9 +194,7 @@ theorem hCompleteStage_ok (c : Cfg) (s : State) (id i : Nat) : EffsOK (hComplete
           · rw [List.flatten_append, effsOK_append]
             refine ⟨joinTracking_ok c s i, ?_⟩
             effs_tac
-            split
-            · effs_tac
-            · exact effsOK_map_push _ _ (fun _ => trivial)
+            exact splitCont_ok _ _
           · effs_tac
 
 theorem hSkipStage_ok (c : Cfg) (s : State) (id i : Nat) : EffsOK (hSkipStage c s id i).flatten := by
